@@ -60,21 +60,15 @@ def remap_spec(ctx, an: Anchors, w: FuncInfo):
                     rets = [x for x in hcfg.live_nodes() if x.kind == "stmt" and isinstance(x.ast, ast.Return) and x.ast.value is not None]
                     remap_rets = [x for x in rets if not (isinstance(x.ast.value, ast.Name) and x.ast.value.id == hp)]
                     if len(remap_rets) == 1:
-                        from .discharge import controlling_tests, subst
+                        from .discharge import controlling_conditions, subst
 
-                        cond = None
-                        for t, lab in controlling_tests(hcfg, remap_rets[0]):
-                            if lab == "t":
-                                cond = subst(t.ast, {hp: ast.Name(id="name", ctx=ast.Load())})
-                        return h, remap_rets[0], cond, remap_rets[0].ast.value, n
+                        conds = [(subst(e_, {hp: ast.Name(id="name", ctx=ast.Load())}), truth) for e_, truth, _t in controlling_conditions(hcfg, remap_rets[0])]
+                        return h, remap_rets[0], conds, remap_rets[0].ast.value, n
                     return h, None, None, None, n
-            from .discharge import controlling_tests
+            from .discharge import controlling_conditions
 
-            cond = None
-            for t, lab in controlling_tests(wcfg, n):
-                if lab == "t":
-                    cond = t.ast
-            return w, n, cond, v, n
+            conds = [(e_, truth) for e_, truth, _t in controlling_conditions(wcfg, n)]
+            return w, n, conds, v, n
     return None
 
 
@@ -214,22 +208,23 @@ def run(ctx) -> None:
             ast = rnode.ast
 
         rn = _RN()
-        if cond is None:
+        conds = cond  # normalised [(expr, truth)]
+        if not conds:
             rep.violate("C14.R4", where, rnode.ast, "the name is remapped unconditionally: explicitly named resources are renamed too")
             continue
         tests = [(wn, "n")]
-        conj = cond.values if isinstance(cond, ast.BoolOp) and isinstance(cond.op, ast.And) else [cond]
-        has_default = any(isinstance(c, ast.Compare) and isinstance(c.left, ast.Name) and c.left.id == "name" and isinstance(c.ops[0], ast.Eq) and is_const(c.comparators[0], "default") for c in conj)
-        st = [c for c in conj if isinstance(c, ast.Compare) and self_attr(c.left) == state_attr and isinstance(c.ops[0], (ast.Is, ast.Eq))]
-        st_member = enum_member(st[0].comparators[0], state_enum) if st else None
-        ok = has_default and st_member == "starting" and len(conj) == 2 and isinstance(cond, ast.BoolOp)
+        has_default = any(truth and isinstance(c, ast.Compare) and isinstance(c.left, ast.Name) and c.left.id == "name" and isinstance(c.ops[0], ast.Eq) and is_const(c.comparators[0], "default") for c, truth in conds)
+        st = [(c, truth) for c, truth in conds if isinstance(c, ast.Compare) and self_attr(c.left) == state_attr and isinstance(c.ops[0], (ast.Is, ast.Eq))]
+        st_member = enum_member(st[0][0].comparators[0], state_enum) if st and st[0][1] else None
+        cond_txt = " and ".join(("" if truth else "not ") + ast.unparse(c) for c, truth in conds)
+        ok = has_default and st_member == "starting" and len(conds) == 2
         rep.check(
             "C14.R4",
             ok,
             where,
-            cond,
+            rnode.ast,
             "name is remapped iff it equals 'default' and the component is in its start() phase",
-            f"remap condition `{ast.unparse(cond)}` is not (name == 'default' and state is starting): "
+            f"remap condition `{cond_txt}` is not (name == 'default' and state is starting): "
             + ("explicitly named resources are remapped" if not has_default else "resources added outside start() (e.g. in prepare()) are remapped, or never"),
         )
         rep.check("C14.R4", self_attr(val) is not None, where, rn.ast, f"remapped to self.{self_attr(val)}", f"remapped to `{ast.unparse(val)}`")
@@ -248,7 +243,7 @@ def run(ctx) -> None:
                 if c.kind == "func" and c.func is an.ctx_method(name):
                     fwd = (len(call.args) >= 2 and isinstance(call.args[1], ast.Name) and call.args[1].id == "name") or any(k.arg == "name" and isinstance(k.value, ast.Name) and k.value.id == "name" for k in call.keywords)
                     rep.check("C14.R4", fwd, w, call, "the (possibly remapped) name is forwarded", "the delegate does not receive the remapped name")
-        sigs[name] = (ast.unparse(cond), ast.unparse(val))
+        sigs[name] = (sorted(("" if truth else "not ") + ast.unparse(c) for c, truth in conds), ast.unparse(val))
     if len(sigs) == 2:
         vals = list(sigs.values())
         rep.check("C14.R4", vals[0] == vals[1], an.ComponentContext.methods["add_resource_factory"], None, "add_resource and add_resource_factory remap identically", f"siblings disagree: add_resource uses {vals[0]}, add_resource_factory uses {vals[1]}")
@@ -379,9 +374,23 @@ def _phase_window(ctx, an: Anchors, starter: FuncInfo, state_attr: str, state_en
     rep.check("C14.R4", ex == {"started"}, starter, starter.node, "the starter leaves the component in state 'started'", f"after a successful start the component state may be {sorted(ex)} (the remap stays armed or the state is wrong)")
 
 
+def alias_var_of(ctx, init: FuncInfo, rec_calls: list) -> str:
+    """The loop variable holding a child's alias: the key of the loop around the recursive call."""
+    from .tables import enclosing_loops
+
+    for call, _ in rec_calls:
+        loops = [l for l in enclosing_loops(init, call) if isinstance(l[2], ast.For)]
+        if loops:
+            tgt = loops[-1][1]
+            if isinstance(tgt, ast.Tuple) and tgt.elts and isinstance(tgt.elts[0], ast.Name):
+                return tgt.elts[0].id
+    return "alias"
+
+
 def _remap_value(ctx, an: Anchors, init: FuncInfo, rd: ReachingDefs, rec_calls: list) -> None:
     rep = ctx.rep
     a = ctx.a
+    alias_v = alias_var_of(ctx, init, rec_calls)
     # which init parameter ends up as the default resource name of the component context?
     cc_init = an.ComponentContext.methods.get("__init__")
     ctor_calls = [(call, c) for call, c in a.func_calls(init) if c.kind == "class" and c.cls is an.ComponentContext]
@@ -445,7 +454,7 @@ def _remap_value(ctx, an: Anchors, init: FuncInfo, rd: ReachingDefs, rec_calls: 
         elif good is not None:
             rep.hold("C14.R4", init, good, "default resource name is the alias suffix after the first '/'")
             rep.check("C14.R4", "default" in cl.consts, init, rcall, "an alias without '/' keeps the name 'default'", "an alias without '/' does not fall back to 'default'")
-            rep.check("C14.R4", "alias" in cl.names or any("alias" in names_in(e) for e in cl.exprs), init, good, "the suffix is taken from the alias", "the suffix is not taken from the alias")
+            rep.check("C14.R4", alias_v in cl.names or any(alias_v in names_in(e) for e in cl.exprs), init, good, "the suffix is taken from the alias", "the suffix is not taken from the alias")
         else:
             rep.unrecognised("C14.R4", init, rcall, "cannot recognise how the child's default resource name is derived from the alias")
 
@@ -464,15 +473,16 @@ def _arg_for_param(callee: FuncInfo, call: ast.Call, param: str):
 def _type_resolution(ctx, an: Anchors, init: FuncInfo, rd: ReachingDefs, cfg_param: str) -> None:
     rep = ctx.rep
     a = ctx.a
+    alias_v = alias_var_of(ctx, init, [(c, cal) for c, cal in a.func_calls(init) if cal.kind == "func" and cal.func is init])
     cfg = a.cfg(init)
     # child type defaults to the alias
     sd = [n for n in walk_own(init.node) if isinstance(n, ast.Call) and call_name(n) == "setdefault" and n.args and is_const(n.args[0], "type")]
-    ok = any(len(n.args) == 2 and isinstance(n.args[1], ast.Name) and n.args[1].id == "alias" for n in sd)
+    ok = any(len(n.args) == 2 and isinstance(n.args[1], ast.Name) and n.args[1].id == alias_v for n in sd)
     if not sd:
         # if "type" not in child_config: child_config["type"] = alias
         for n in walk_own(init.node):
             if isinstance(n, ast.If) and isinstance(n.test, ast.Compare) and is_const(n.test.left, "type") and isinstance(n.test.ops[0], ast.NotIn):
-                ok = any(isinstance(b, ast.Assign) and isinstance(b.value, ast.Name) and b.value.id == "alias" for b in n.body)
+                ok = any(isinstance(b, ast.Assign) and isinstance(b.value, ast.Name) and b.value.id == alias_v for b in n.body)
     rep.check("C14.R5", ok, init, sd[0] if sd else init.node, "a child's type defaults to its alias", "a child's type does not default to its alias")
     # kind/name: cut at the first '/'
     cut = None
